@@ -103,9 +103,22 @@ class SnapApp(KVApp):
                 w = CTX.world
                 node = w.hosts[idx].node
                 blob = _pickle.dumps((SnapModel.observe(node), data), 2)
+                st['calls'] += 1
+                if mode == 'async' and self.cfg.get('userser_background'):
+                    # a really asynchronous serializer: the state is captured now, the file is written in the
+                    # background - here: one part now, the others one by one each time the checker is asked
+                    f = M.sr.open(fileName, 'wb')
+                    k = max(1, len(blob) // 3)
+                    f.write(blob[:k])
+                    f.flush()
+                    st['f'] = f
+                    st['rest'] = [blob[k:2 * k], blob[2 * k:]]
+                    st['pending'] = 0
+                    st['done'] = True
+                    w.probe('background_serializer_started')
+                    return
                 with M.sr.open(fileName, 'wb') as f:
                     f.write(blob)
-                st['calls'] += 1
                 st['pending'] = 3 if mode == 'async' else 0
                 st['done'] = True
 
@@ -124,6 +137,16 @@ class SnapApp(KVApp):
                 S = M.cf.SERIALIZER_STATE
                 if not st.get('done'):
                     return S.NOT_SERIALIZING
+                if st.get('f') is not None:
+                    f = st['f']
+                    if st['rest']:
+                        f.write(st['rest'].pop(0))
+                        f.flush()
+                        return S.SERIALIZING
+                    f.close()
+                    st['f'] = None
+                    st['done'] = False
+                    return S.SUCCESS
                 if st['pending'] > 0:
                     st['pending'] -= 1
                     return S.SERIALIZING
@@ -305,6 +328,7 @@ class C09Spec(c01.C01Spec):
         conf['useFork'] = mode.startswith('fork')
         conf['journal'] = mode.endswith('journal')
         cfg['userser'] = {'user-sync': 'sync', 'user-async': 'async'}.get(mode)
+        cfg['userser_background'] = (mode == 'user-async' and rng.random() < 0.6)
         cfg['placement'] = mode
         if conf['logCompactionBatchSize'] < 64:
             cfg['cpu_cost'] = min(cfg['cpu_cost'], 1e-4)
